@@ -50,7 +50,7 @@ def world() -> Dict[Tuple[str, str], R]:
         return c
     for m, q in [(MOD, "User"), (MOD, "Outer"), (MOD, "Outer.Inner"), (MOD, "NoneTypeHolder"), ("utils", "A"), ("my.utils", "B"), ("my.utils", "A"),
                  ("foo", "Baz"), ("barfoo", "Qux"), ("mytyping", "X"), ("pkg.other", "Thing"), ("pkg.other", "Outer"), ("pkg.other", "Outer.Deep"), ("pkg.other", "Outer.Deep.Deeper"), (MOD, "Outer.Inner.Core"),
-                 ("_io", "StringIO"), ("pkg", "mod"), ("collections", "OrderedDict")]:
+                 ("_io", "StringIO"), ("pkg", "mod"), ("collections", "OrderedDict"), ("pkg.other", "List"), (MOD, "Set"), ("pkg.other", "Union")]:
         add(cls(m, q))
     w[("io", "StringIO")] = w[("_io", "StringIO")]
     return w
@@ -86,6 +86,9 @@ def universe() -> List[Tuple[str, V]]:
         ("Iterator[TypedDict]", gen("Iterator", td1)), ("Generator[TypedDict, None, int]", gen("Generator", td1, NONE_T, INT)),
         ("class nested three levels deep in another module", C("pkg.other", "Outer.Deep.Deeper")), ("List[class nested three levels deep in another module]", gen("List", C("pkg.other", "Outer.Deep.Deeper"))),
         ("own class nested three levels deep", C(MOD, "Outer.Inner.Core")),
+        # user classes that merely share their name with a typing alias
+        ("class of another module named List", C("pkg.other", "List")), ("own class named Set", C(MOD, "Set")),
+        ("Dict[str, class named Union]", gen("Dict", STR, C("pkg.other", "Union"))),
     ]
     return out
 
